@@ -814,6 +814,12 @@ pub fn gen_strong_with(r: &mut Rng, so: StrongOpts) -> (String, String) {
         let guard = if n == 0 { String::new() } else { format!(", {} = 1..2", "X") };
         left.push_str(&format!("\n{atom} :- {} {atom}{}.", ["not", "not not"][r.upto(2)], if r.chance(1, 2) { guard } else { String::new() }));
     }
+    if r.chance(1, 8) {
+        // a constraint whose whole body is one (singly or doubly) negated literal
+        let (p, n) = o.preds[r.upto(o.preds.len())].clone();
+        let atom = if n == 0 { p.clone() } else { format!("{p}({})", vec!["X"; n].join(",")) };
+        left.push_str(&format!("\n:- {} {atom}.", ["not", "not not", "not"][r.upto(3)]));
+    }
     let right = match r.below(4) {
         0 => rewrite_program(r, &left),
         1 | 2 => mutate_program(r, &left),
